@@ -149,6 +149,8 @@ pub struct Cov {
     pub instantiate_cases: u64,
     /// when set, distinct fingerprints are kept only for this property (the one being checked)
     pub only: Option<usize>,
+    /// coverage cells: (request kind + case tags of the model's accepted alternative) -> hits
+    pub cells: BTreeMap<String, u64>,
 }
 
 pub const DISTINCT_CAP: usize = 1_500_000;
@@ -217,6 +219,9 @@ impl Cov {
             if self.transitions.len() < DISTINCT_CAP {
                 self.transitions.insert(*h);
             }
+        }
+        for (k, v) in &o.cells {
+            *self.cells.entry(k.clone()).or_insert(0) += v;
         }
         self.steps += o.steps;
         self.blocks += o.blocks;
